@@ -57,7 +57,7 @@ Inductive tstep (s : state) : label -> state -> Prop :=
 (* Close() *)
 | t_close_do : close_st s = KCalled -> tstep s Tau (set_close_st KDone (set_cancelled true s))
 (* environment *)
-| t_e_conn regs ping : cpc s = CIdle -> S (length regs) <= budget s ->
+| t_e_conn regs ping : cpc s = CIdle -> existsb o_quit regs = false -> S (length regs) <= budget s ->
     tstep s (LConnCall regs ping) (set_cpc (CStart regs ping) (spent (S (length regs)) s))
 | t_e_closecall : close_st s = KNone -> 1 <= budget s -> tstep s LCloseCall (set_close_st KCalled (spent 1 s))
 | t_e_closeret : close_st s = KDone -> tstep s LCloseRet (set_close_st KNone s)
@@ -172,6 +172,7 @@ Lemma env_tstep l s s' : env_step l s = Some s' -> tstep s l s'.
 Proof.
   destruct l; simpl; intros H; try discriminate.
   - destruct (cpc s) eqn:E; try discriminate.
+    destruct (existsb o_quit regs) eqn:Q; [discriminate|].
     destruct (spend (S (length regs)) s) as [s1|] eqn:S1; simpl in H; [|discriminate].
     apply spend_some in S1. destruct S1 as [Hb ->]. injection H as <-. eapply t_e_conn; eauto.
   - destruct (close_st s) eqn:E; try discriminate.
